@@ -1,0 +1,27 @@
+//go:build verif
+
+package types
+
+import "bytes"
+
+// Round-trip harnesses for the contract checker in /verif (C11): encode a value with its real Encode method into a
+// fresh encoder, decode the octets with its real Decode method, and hand back the decoded value, the number of unread
+// octets and the error. The contracts state result == input, nothing unread, no error. Compiled only with `verif`.
+
+type verifCodec[T any] interface {
+	*T
+	Encode(e *Encoder) error
+	Decode(d *Decoder) error
+}
+
+func verifRoundTrip[T any, PT verifCodec[T]](x T) (y T, unread int, err error) {
+	e := &Encoder{buf: new(bytes.Buffer)}
+	if err = PT(&x).Encode(e); err != nil {
+		return y, 0, err
+	}
+	d := &Decoder{buf: bytes.NewReader(e.buf.Bytes())}
+	if err = PT(&y).Decode(d); err != nil {
+		return y, 0, err
+	}
+	return y, d.buf.Len(), nil
+}
